@@ -27,7 +27,7 @@ ENTRIES = ['lookup', 'lookup1', 'adapter_hook', 'queryAdapter', 'queryMultiAdapt
            'subscriptions', 'subscribers', 'call']
 POINTS = ['lazy_required', 'provided_hash', 'provided_eq', 'name_hash', 'name_bool', 'required_hash', 'required_eq',
           'uncached_entry', 'uncached_exit', 'spec_weakref', 'spec_subscribe', 'providedBy_descr', 'provides_descr',
-          'conform', 'factory', 'value_del', 'generation_attr', 'generation_attr_2nd', 'sro_attr', 'super_self']
+          'conform', 'factory', 'value_del', 'generation_attr', 'generation_attr_2nd', 'ro_attr', 'super_self']
 ACTIONS = ['register', 'unregister', 'subscribe', 'unsubscribe', 'changed', 'rebase', 'reenter_same',
            'reenter_other', 'raise', 'gc', 'register_flood', 'changed_flood', 'reenter_then_base']
 
@@ -238,6 +238,21 @@ class Case:
 
         class Registry(Base):
             LookupClass = Lookup
+
+        if point == 'ro_attr':
+            class Registry(Base):       # noqa: F811
+                """The registry's resolution order is read through a hook (every uncached computation walks it; the
+                verifying flavour reads it again when it records the generations)."""
+                LookupClass = Lookup
+
+                @property
+                def ro(self_):
+                    fire('ro_attr')
+                    return self_.__dict__['_ro']
+
+                @ro.setter
+                def ro(self_, v):
+                    self_.__dict__['_ro'] = v
 
         class GenRegistry(Base):
             """Base registry whose _generation / ro are read through hooks (verifying path)."""
@@ -724,6 +739,10 @@ def run_leak(ctx, rng, job):
             for _ in range(50):
                 once()
             gc.collect()
+            # the cache dictionaries themselves are metered too: a reference leaked to an inner cache dictionary allocates
+            # nothing and touches none of the sentinels
+            dicts = inner_dicts(cache_roots(lk)) + cache_roots(lk)
+            d0 = [sys.getrefcount(d) for d in dicts]
             r0 = (sys.getrefcount(IR), sys.getrefcount(IP), sys.getrefcount(sentinel_default), sys.getrefcount(fac), sys.getrefcount(ob)) + \
                 tuple(sys.getrefcount(x) for x in extra)
             b0 = sys.getallocatedblocks()
@@ -733,6 +752,13 @@ def run_leak(ctx, rng, job):
             r1 = (sys.getrefcount(IR), sys.getrefcount(IP), sys.getrefcount(sentinel_default), sys.getrefcount(fac), sys.getrefcount(ob)) + \
                 tuple(sys.getrefcount(x) for x in extra)
             b1 = sys.getallocatedblocks()
+            d1 = [sys.getrefcount(d) for d in dicts]
+            ctx.ev()
+            ctx.count('cache_dictionaries_metered', len(dicts))
+            del dicts[:]          # (the meter must not keep the caches - and what they hold - alive)
+            if any(b - a > N // 10 for a, b in zip(d0, d1)):
+                ctx.violation('reference-leak', {'flavour': flavour, 'scenario': label, 'calls': N, 'what': 'a cache dictionary',
+                                                 'refcount_deltas_of_cache_dictionaries': [b - a for a, b in zip(d0, d1)]}, abort=False)
             lk.boom = False
             reg.unregister([IRtmp], IP, '')
             wr = weakref.ref(tmpv)
@@ -757,6 +783,10 @@ def run_leak(ctx, rng, job):
             meter(label, fn)
         for label, fn in booms.items():
             meter(label, fn, boom=True)
+        # the same entry points when every call is a miss that is computed and stored (the caches are dropped in between)
+        for label in ('lookup-hit', 'lookup1-hit', 'lookupAll', 'subscriptions', 'adapter_hook', 'lookup-named-miss'):
+            fn = scenarios[label]
+            meter(label + '-after-invalidation', lambda fn=fn: (lk.changed(None), fn()))
         # an adapted *class* nobody has asked for its implementation specification yet, whose __provides__ is not a
         # specification: its declaration is worked out anew at every call
         odd_provides = ['not a specification']
@@ -1081,9 +1111,69 @@ def parked_rebase(ctx):
                            'ro_is_new_chain': list(sub.ro) == [sub, reg, top]}, abort=False)
 
 
+def scheduled_rebuild(ctx):
+    """A lookup thread scheduled in the middle of ``rebuild()`` (the mutator is held inside the re-registration of its
+    second entry while another thread looks things up on the registry and on one below it).  ``rebuild()`` changes no
+    answer, so every lookup must give what it gave before and gives after; and once it has returned, every registry at
+    or below must answer as before, whatever was looked up meanwhile."""
+    for flavour, Base in FLAVOURS.items():
+        mod = util.fresh_module()
+        IR, IP = util.mkiface('IR', module=mod), util.mkiface('IP', module=mod)
+        hook = [None]
+
+        class Reg(Base):
+            def register(self, required, provided, name, value):
+                if hook[0] is not None:
+                    hook[0](name)
+                return Base.register(self, required, provided, name, value)
+        top = Reg()
+        sub = Base((top,))
+        for n_ in ('a', 'b', 'c'):
+            top.register([IR], IP, n_, 'V' + n_)
+        top.subscribe([IR], IP, 'S')
+        before = {r: (sorted(r.lookupAll([IR], IP)), list(r.subscriptions([IR], IP)), [r.lookup([IR], IP, n_) for n_ in 'abc'])
+                  for r in (top, sub)}
+        during = []
+        calls = [0]
+
+        def in_the_middle(name):
+            calls[0] += 1
+            if calls[0] != 2:
+                return
+
+            def look():
+                for r in (top, sub):
+                    during.append((r is sub, sorted(r.lookupAll([IR], IP)), list(r.subscriptions([IR], IP)),
+                                   [r.lookup([IR], IP, n_) for n_ in 'abc']))
+            t = threading.Thread(target=look)
+            t.start()
+            t.join(20)
+        hook[0] = in_the_middle
+        try:
+            top.rebuild()
+        finally:
+            hook[0] = None
+        ctx.ev(2)
+        ctx.count('scheduled_rebuild_schedules')
+        for is_sub, la, su, lk in during:
+            r = sub if is_sub else top
+            if (la, su, lk) != before[r]:
+                ctx.violation('lookup-during-rebuild-sees-a-half-empty-registry',
+                              {'flavour': flavour, 'registry': 'below' if is_sub else 'rebuilt', 'lookupAll': repr(la), 'subscriptions': repr(su),
+                               'lookups': repr(lk), 'before_and_after': repr(before[r])}, mechanism='rebuild_not_atomic', abort=False)
+                break
+        for r in (top, sub):
+            now = (sorted(r.lookupAll([IR], IP)), list(r.subscriptions([IR], IP)), [r.lookup([IR], IP, n_) for n_ in 'abc'])
+            ctx.ev()
+            if now != before[r]:
+                ctx.violation('stale-answer-after-rebuild', {'flavour': flavour, 'registry': 'below' if r is sub else 'rebuilt',
+                                                             'now': repr(now), 'before': repr(before[r])}, abort=False)
+
+
 def run_mutrace(ctx, rng, job):
     if ctx.case == 0:
         parked_rebase(ctx)
+        scheduled_rebuild(ctx)
     """Mutation-window race.  One mutator performs registrations / subscriptions under *fresh* provided interfaces
     (first registration of that interface in the registry: the extendor and reference-count bookkeeping runs) and
     removes them again, in different members of a chain, with statement-level preemption injected inside the
@@ -1115,6 +1205,8 @@ def run_mutrace(ctx, rng, job):
         gen = [0]
         stop = [False]
         errors = []
+        during_rebuild = []      # anomalies seen by lookups that overlapped a rebuild() (recorded finding rebuild_not_atomic)
+        rb = [0]                 # odd while a rebuild() is under way
         stats = {'lookups': 0}
         lock = threading.Lock()
         sys.setswitchinterval(1e-5)
@@ -1133,30 +1225,40 @@ def run_mutrace(ctx, rng, job):
             n = 0
             local = []
             r = chain[k % 3] if k else sub
-            try:
-                while not stop[0] and not local:
-                    for s in specs:
-                        g0 = gen[0]
+            while not stop[0] and not local:
+                for s in specs:
+                    found = []
+                    g0 = gen[0]
+                    rb0 = rb[0]
+                    try:
                         v = r.lookup([s], IP2)
                         if v is not None and not ok_tag(v, g0, gen[0]):
-                            local.append(('lookup', repr(v), g0, gen[0]))
+                            found.append(('lookup', repr(v), g0, gen[0]))
                         su = r.subscriptions([s], IP2)
                         if len(su) > 3 or not all(ok_tag(x, g0, gen[0]) for x in su) or sum(1 for x in su if x is vz) != 1:
                             # the permanent subscriber exactly once, plus at most the two generations in flight
-                            local.append(('subscriptions', repr(su), g0, gen[0]))
+                            found.append(('subscriptions', repr(su), g0, gen[0]))
                         la = r.lookupAll([s], IP2)
                         if len(la) > 3 or not all(ok_tag(x[1], g0, gen[0]) for x in la) or ('z', vz) not in la:
-                            local.append(('lookupAll', repr(la), g0, gen[0]))
+                            found.append(('lookupAll', repr(la), g0, gen[0]))
                         vn = r.lookup([s], IP2, 'z')
                         if vn is not vz:
-                            local.append(('lookup-named-permanent', repr(vn), g0, gen[0]))
+                            found.append(('lookup-named-permanent', repr(vn), g0, gen[0]))
                         va = r.lookup([s], IP2, 'alt')
                         if not (va is None or (va is valt and r is sub)):
-                            local.append(('lookup-named-alt', repr(va), g0, gen[0]))
+                            found.append(('lookup-named-alt', repr(va), g0, gen[0]))
                         n += 5
-            except BaseException as e:      # noqa
-                import traceback
-                local.append(('exception', repr(e), ''.join(traceback.format_exception(type(e), e, e.__traceback__))[-1500:]))
+                    except BaseException as e:      # noqa
+                        import traceback
+                        found.append(('exception', repr(e), ''.join(traceback.format_exception(type(e), e, e.__traceback__))[-1500:]))
+                    if found:
+                        if rb0 % 2 == 1 or rb[0] != rb0:
+                            # the lookups overlapped a rebuild() of a registry of the chain (recorded finding)
+                            with lock:
+                                during_rebuild.extend(found)
+                        else:
+                            local.extend(found)
+                            break
             with lock:
                 stats['lookups'] += n
                 errors.extend(local[:3])
@@ -1197,6 +1299,24 @@ def run_mutrace(ctx, rng, job):
                     if sorted(x.tag for x in got) != sorted([v.tag, vz.tag]):
                         errors.append(('stale-after-subscribe', flavour, repr(got), repr([vz, v]), 'level %d' % ti))
                         break
+                if g % 5 == 0:
+                    # rebuild phase: a registry of the chain is rebuilt (no answer changes); once it has returned every
+                    # registry at or below it answers as before, whatever was looked up meanwhile
+                    tr = chain[(g // 5) % 3]
+                    rb[0] += 1
+                    try:
+                        tr.rebuild()
+                    finally:
+                        rb[0] += 1
+                    ctx.count('mutrace_rebuilds')
+                    for ri_, r in enumerate(chain[:chain.index(tr) + 1]):
+                        ctx.ev()
+                        s = specs[g % len(specs)]
+                        sees_v = ri_ <= ti          # (the current generation's value lives in chain[ti])
+                        if r.lookup([s], IP2, 'z') is not vz or (r.lookup([s], IP2) is not v) == sees_v or \
+                                sorted(x.tag for x in r.subscriptions([s], IP2)) != sorted(([v.tag] if sees_v else []) + [vz.tag]):
+                            errors.append(('stale-after-rebuild', flavour, 'level %d' % chain.index(tr)))
+                            break
                 if g % 2 == 0:
                     # re-basing phase: ``sub`` moves to the alternative parent and back; right after each assignment
                     # has returned it must answer along the new chain
@@ -1227,6 +1347,10 @@ def run_mutrace(ctx, rng, job):
         ctx.ev(max(1, stats['lookups']))
         for e in errors[:3]:
             ctx.violation('mutation-window-race', {'flavour': flavour, 'what': list(map(str, e))}, abort=False)
+        ctx.count('lookups_overlapping_a_rebuild_with_a_wrong_answer', len(during_rebuild))
+        for e in during_rebuild[:1]:
+            ctx.violation('lookup-during-rebuild-sees-a-half-empty-registry', {'flavour': flavour, 'what': list(map(str, e))[:3]},
+                          mechanism='rebuild_not_atomic', abort=False)
         ctx.shape(('mutrace', flavour, nlook), nontrivial=True)
 
 
